@@ -179,6 +179,142 @@ func HListScript() {
 	nd.Reach("end")
 }
 
+// HReuse: a builder used for several values in a row (Build, Reset, begin again): every value
+// is assembled as by a fresh builder, whatever kinds came before.
+func HReuse() {
+	var np datamodel.NodePrototype = basicnode.Prototype.Any
+	kinds := 3
+	switch nd.Choose("proto", 3) {
+	case 1:
+		np, kinds = basicnode.Prototype.List, 1
+	case 2:
+		np, kinds = basicnode.Prototype.Map, 1
+	}
+	nb := np.NewBuilder()
+	var built []datamodel.Node
+	var want []*refval.V
+	for r := 0; r < nd.Param("ROUNDS", 3); r++ {
+		if r > 0 {
+			nb.Reset()
+		}
+		k := nd.Choose("kind", kinds)
+		if np == basicnode.Prototype.Map {
+			k = 1
+		}
+		var v *refval.V
+		nd.NoPanic("assemble on a reset builder", func() {
+			switch k {
+			case 0: // a list
+				v = &refval.V{K: refval.List}
+				la, err := nb.BeginList(hint("hint"))
+				nd.Assert(err == nil, "BeginList on a reset builder")
+				for i, n := 0, nd.Choose("len", 3); i < n; i++ {
+					e := gen.FromShape("e", "i")
+					nd.Assert(gen.Assign(la.AssembleValue(), e) == nil, "a legal value assignment succeeds")
+					v.L = append(v.L, e)
+				}
+				nd.Assert(la.Finish() == nil, "Finish")
+			case 1: // a map
+				ma, err := nb.BeginMap(hint("hint"))
+				nd.Assert(err == nil, "BeginMap on a reset builder")
+				if err == nil {
+					v = script(ma, 2, 0, "m")
+				}
+			case 2: // a scalar
+				v = gen.FromShape("s", "s1")
+				nd.Assert(gen.Assign(nb, v) == nil, "a scalar on a reset builder")
+			}
+		})
+		if v == nil {
+			return
+		}
+		var n datamodel.Node
+		nd.NoPanic("Build", func() { n = nb.Build() })
+		if n == nil {
+			return
+		}
+		built, want = append(built, n), append(want, v)
+	}
+	for i := range built {
+		nd.Assert(refval.Equal(refval.Of(built[i]), want[i]), "every node built holds exactly what was assembled for it, also after the builder went on to other values")
+	}
+	nd.Reach("end")
+}
+
+// HTypedMapScript: typed maps (plain and nullable values) through both engines and both levels:
+// entries with free keys, a repeat of an earlier key (whose value may be null) injected after
+// any of them, by either route.
+func HTypedMapScript() {
+	engine := nd.Choose("engine", 3)
+	name := []string{"MapSN", "MapSI", "MapSU"}[nd.Choose("type", 3)]
+	t := schemas.ByName(name)
+	g := &refschema.G{NarrowInts: true}
+	v := g.Gen(t)
+	level := nd.Choose("level", 2)
+	tree := v
+	proto := typed.Proto(engine, name).Type
+	if level == 1 {
+		tree = refschema.Repr(t, v)
+		proto = typed.Proto(engine, name).Repr
+	}
+	nb := proto.NewBuilder()
+	ok := true
+	nd.NoPanic("script", func() {
+		ma, err := nb.BeginMap(int64(len(tree.L)))
+		nd.Assert(err == nil, "BeginMap")
+		if err != nil {
+			ok = false
+			return
+		}
+		injectAfter := nd.Choose("injectafter", len(tree.L)+1)
+		for i, c := range tree.L {
+			va, err := ma.AssembleEntry(tree.Keys[i])
+			nd.Assert(err == nil, "a key not yet present is accepted")
+			if err != nil {
+				ok = false
+				return
+			}
+			nd.Assert(typed.Assign(va, c) == nil, "its value is accepted")
+			if i == injectAfter {
+				rep := tree.Keys[nd.Choose("repeat", i+1)]
+				var e2 error
+				switch nd.Choose("reproute", 3) {
+				case 0:
+					var va2 datamodel.NodeAssembler
+					va2, e2 = ma.AssembleEntry(rep)
+					if e2 == nil && va2 != nil {
+						e2 = va2.AssignNull() // (engines that can only tell at the value still must refuse)
+					}
+				case 1:
+					e2 = ma.AssembleKey().AssignString(rep)
+					if engine == typed.Generated {
+						// generated maps learn of a finished key at their next call (recorded
+						// finding, see case 2): here the refusal must come from the value assembler
+						e2 = ma.AssembleValue().AssignNull()
+					}
+				case 2:
+					e2 = ma.AssembleKey().AssignString(rep)
+					if engine == typed.Generated {
+						nd.KnownFinding("C12-generated-map-repeated-key-refused-at-value-not-at-key", e2 == nil)
+					}
+				}
+				nd.Assert(e2 != nil, "a repeated key is rejected")
+				nd.Reach("rejected")
+			}
+		}
+		nd.Assert(ma.Finish() == nil, "Finish succeeds after a rejected repeat")
+	})
+	if !ok {
+		return
+	}
+	var n datamodel.Node
+	nd.NoPanic("Build", func() { n = nb.Build() })
+	if n != nil {
+		nd.Assert(refval.Equal(refval.Of(n), v), "the node holds exactly the accepted entries: the rejected call left no visible side effect")
+	}
+	nd.Reach("end")
+}
+
 // HWrongKind: every kind-specific basicnode builder reports every other kind by an error from the call.
 func HWrongKind() {
 	protos := []datamodel.NodePrototype{basicnode.Prototype.Bool, basicnode.Prototype.Int, basicnode.Prototype.Float, basicnode.Prototype.String,
